@@ -275,7 +275,47 @@ def rule_e6(ctx):
         raise Unrecognised("C03.E6", LANG, f"only {n} memo sites recognised (expected BindExpression.to_tree_prefix)")
 
 
+def rule_e10(ctx, prefix="E10"):
+    """BindExpression.__combination_to_tree_prefix: every tree element without a counterpart in the match expression is recorded under its OWN placeholder key in
+    match_expr_matches - a placeholder object shared between iterations makes later elements overwrite earlier ones (two empty optional parts -> one entry)."""
+    LANG_ = "src/isla/language.py"
+    m = ctx.repo.module(LANG_, f"C03.{prefix}")
+    f = next((fn for q, fn in m.functions() if q.startswith("BindExpression.") and q.endswith("combination_to_tree_prefix") and isinstance(fn, ast.FunctionDef)), None)
+    if f is None:
+        raise Unrecognised(f"C03.{prefix}", f"{LANG_}:BindExpression", "__combination_to_tree_prefix not found")
+    c = f"{LANG_}:BindExpression.__combination_to_tree_prefix"
+    search = next((n for n in ast.walk(f) if isinstance(n, ast.FunctionDef) and n.name == "search"), None)
+    if search is None:
+        raise Unrecognised(f"C03.{prefix}", c, "inner function search not found")
+    stores = [a for a in ast.walk(search) if isinstance(a, ast.Assign) and isinstance(a.targets[0], ast.Subscript) and src(a.targets[0].value) == "match_expr_matches"]
+    if not stores:
+        raise Unrecognised(f"C03.{prefix}", c, "no store into match_expr_matches found")
+    n = 0
+    for st in stores:
+        key = st.targets[0].slice
+        if not isinstance(key, ast.Name):
+            continue
+        binds = [a for a in ast.walk(search) if isinstance(a, ast.Assign) and src(a.targets[0]) == key.id]
+        for b in binds:
+            for call in [x for x in ast.walk(b.value) if isinstance(x, ast.Call) and isinstance(x.func, ast.Attribute) and x.func.attr == "value_or" and x.args]:
+                n += 1
+                d = call.args[0]
+                fresh = isinstance(d, ast.Call) and call_name(d) in ("DummyVariable",)
+                hoisted = isinstance(d, ast.Name) and not any(isinstance(a, ast.Assign) and src(a.targets[0]) == d.id for a in ast.walk(search))
+                if fresh:
+                    ctx.ok(f"{prefix}-placeholder-per-element", c, f"default key {src(d)} created per element", site(call), "a new DummyVariable (unique name) for every unmatched element")
+                elif hoisted:
+                    ctx.viol(f"{prefix}-placeholder-per-element", c, f"default key {src(d)} created per element", site(call),
+                             f"the placeholder `{src(d)}` is created once outside the traversal and used as the dictionary key for EVERY unmatched (empty) element: a second empty optional part overwrites the "
+                             "first entry, the consolidated matches no longer cover the tree and the solver fails an assertion for match expressions over nonterminals with two empty parts")
+                else:
+                    raise Unrecognised(f"C03.{prefix}", c, f"default key `{src(d)}` not understood")
+    if n == 0:
+        raise Unrecognised(f"C03.{prefix}", c, "no `.value_or(<placeholder>)` feeding a match_expr_matches key found")
+
+
 def run(ctx) -> str:
+    ctx.guarded("E10", lambda: rule_e10(ctx))
     ctx.guarded("E6", lambda: rule_e6(ctx))
     ctx.guarded("E1", lambda: rule_e1(ctx))
     ctx.guarded("E2", lambda: rule_e2(ctx))
